@@ -179,7 +179,15 @@ private:
 	m_base_absval.weak_assign(ghost_x, ghost_y);	
       } 
     } else {
-      if (can_rewrite_linear_expression(e, coefficient)) {
+      // The base value has been updated already: if x occurs in e then
+      // the rewritten expression would read the new value of x.
+      bool x_in_e = false;
+      for (auto it = e.begin(), et = e.end(); it != et; ++it) {
+	if ((*it).second == x) {
+	  x_in_e = true;
+	}
+      }
+      if (!x_in_e && can_rewrite_linear_expression(e, coefficient)) {
 	if (!weak) {
 	  m_base_absval.assign(ghost_x,
 			       rewrite_linear_expression(e, coefficient));
@@ -213,8 +221,10 @@ private:
         variable_t ghost_y = get_ghost_var(y, coefficient);
         m_base_absval.assign(ghost_x, ghost_y);
         return;
-      } else if ((z % tracked_coefficient) == 0) {
+      } else if (z == tracked_coefficient && !(x == y)) {
         // rewrite("x := COEF * y") = "x/COEF := y"
+        // (the base value has been updated already: if x is y then
+        // y denotes the new value)
         m_base_absval.assign(ghost_x, y);
         return;
       }
@@ -224,12 +234,9 @@ private:
         variable_t ghost_y = get_ghost_var(y, coefficient);
         m_base_absval.assign(ghost_x, ghost_y);
         return;
-      } else if ((z % tracked_coefficient) == 0) {
-        // rewrite("x := y/COEF") =  "x := y/COEF"
-        variable_t ghost_y = get_ghost_var(y, coefficient);
-        m_base_absval.assign(x, ghost_y);
-        return;
       }
+      // x := y / z is a truncating division: y/COEF says nothing
+      // exact about it
     }
 
     // default case: forget x
